@@ -252,16 +252,21 @@ class Env:
     def cut(self, reason):
         raise Cut(reason)
 
-    def proof_device(self, label, cond):
+    def proof_device(self, label, cond, soft=False):
         """a condition the *argument* needs (a representation invariant of an inductive step), not one the property states: where it
-        can fail, the argument does not apply to this path and the path is left outside the claim (recorded), never reported as a violation"""
+        can fail, the argument does not apply to this path and the path is left outside the claim (recorded), never reported as a violation.
+        soft: return False instead of leaving the path, so that the harness can go on observing (only observable clauses are asserted)"""
         if not isinstance(cond, SymBool):
             cond = builtins.bool(cond)
         if self.sym:
-            if cond is not True and (cond is False or self.ctx.must(cond) is not None):
-                raise Cut("proof device does not hold: " + label)
-        elif not cond:
-            raise Cut("proof device does not hold: " + label)
+            holds = cond is True or (cond is not False and self.ctx.must(cond) is None)
+        else:
+            holds = cond
+        if holds:
+            return True
+        if soft:
+            return False
+        raise Cut("proof device does not hold: " + label)
 
     def _region_terms(self, label):
         out = []
